@@ -99,6 +99,10 @@ def hook_storage_commit():
     _commit_hooked[0] = True
 
 
+class StorageFailure(Exception):
+    """what a backend raises when a write fails for a moment (sqlite 'database is locked', a full disk, ...)"""
+
+
 class StorageTap(Storage):
     """Storage delegating to a real backend; counts writes; can die *before* the k-th write."""
 
@@ -107,6 +111,8 @@ class StorageTap(Storage):
         self.inner = inner
         self.writes = 0
         self.crash_before = None        # 1-based index of the write to die before
+        self.fail_at = None             # 1-based index of a write that raises once (transient storage failure)
+        self.failed = 0
         self.log = []                   # (op, tag, eid)
         self.on_write = None            # callback(op, tag, eid, data) after an applied write
 
@@ -120,6 +126,9 @@ class StorageTap(Storage):
             self.world.dead = True
             self.world.crash_site = ("storage", op, tag, self.writes, COMMIT_SEQ[0])
             raise Crash("before storage write %d" % self.writes)
+        if self.fail_at is not None and self.writes == self.fail_at:
+            self.failed += 1
+            raise StorageFailure("injected transient failure of storage write %d (%s)" % (self.writes, op))
         if len(self.log) < 5000:
             self.log.append((op, tag, eid, COMMIT_SEQ[0]))
 
